@@ -1623,6 +1623,146 @@ def work_empty_hash(task):
     return acc
 
 
+# ---------------------------------------------------------------------------
+# part "race": an external writer rewrites the bound file (in place, newer mtime) at the k-th environment seam
+# INSIDE one load / load_if_changed / constructor call (E4: deviation from the default environment answer "nobody
+# else touches the file while I read it").  Seams = before/after the library's open(), before/after each of its
+# getmtime() calls, before/after it reads the lines.  Oracle (eventual consistency of reload-if-changed): after the
+# call has returned and the application has polled load_if_changed() once more, the object exports the file's
+# final content.  Not modelled: torn reads (a write in the middle of the line iteration) and replacement by rename
+# while the file is open.
+# ---------------------------------------------------------------------------
+RACE_OPS = ("load", "load_if_changed", "ctor", "load_if_changed_unchanged")
+RACE_MAX_SEAMS = 10
+
+
+class _RaceFile:
+    def __init__(self, fh, seam):
+        self._fh, self._seam = fh, seam
+
+    def __enter__(self):
+        return self
+
+    def __exit__(self, *a):
+        self._fh.close()
+        return False
+
+    def __iter__(self):
+        self._seam("before the lines are read")
+        yield from self._fh
+        self._seam("after the lines were read")
+
+    def read(self, *a):
+        self._seam("before the lines are read")
+        data = self._fh.read(*a)
+        self._seam("after the lines were read")
+        return data
+
+    def __getattr__(self, name):
+        return getattr(self._fh, name)
+
+
+def eval_race(case):
+    """-> (violations, seam name or None)"""
+    import builtins
+
+    E = setup_env()
+    A = E["A"]
+    cls, enc, op, k = case["cls"], case["enc"], case["op"], case["k"]
+    mat = Material.of({"cls": cls, "enc": enc, "seed": case.get("seed", 0)})
+    vm = VirtualMtime()
+    E["shim"].path.vm = vm
+    path = os.path.join(E["dir"], "race")
+    fa, fb, fc = mat.files["plain"], mat.files["alt"], mat.files["alt2"]
+    kw = {"encoding": enc}
+    if cls == "htpasswd":
+        kw["context"] = E["ctx"]
+        klass = A.HtpasswdFile
+    else:
+        klass = A.HtdigestFile
+    vm.external_write(path, fa, True)
+    obj = None
+    if op != "ctor":
+        obj = klass(path, **kw)
+        if op != "load_if_changed_unchanged":
+            vm.external_write(path, fb, True)
+    count, fired = [0], [None]
+
+    def seam(name):
+        count[0] += 1
+        if count[0] == k and fired[0] is None:
+            fired[0] = name
+            vm.external_write(path, fc, True)
+
+    real_get = vm.getmtime
+
+    def getmtime(p):
+        seam("before getmtime()")
+        r = real_get(p)
+        seam("after getmtime()")
+        return r
+
+    def hooked_open(p, *a, **kw2):
+        if os.fspath(p) != path:
+            return builtins.open(p, *a, **kw2)
+        seam("before open()")
+        fh = builtins.open(p, *a, **kw2)
+        seam("after open()")
+        return _RaceFile(fh, seam)
+
+    vm.getmtime = getmtime
+    A.open = hooked_open
+    try:
+        if op == "load":
+            r = _call(obj.load)
+        elif op.startswith("load_if_changed"):
+            r = _call(obj.load_if_changed)
+        else:
+            r = _call(lambda: klass(path, **kw))
+            obj = r[1] if r[0] == "ret" else None
+    finally:
+        del A.open
+        vm.getmtime = real_get
+    if fired[0] is None:
+        return [], None
+    where = f"{op}() of a bound {klass.__name__} while an external writer rewrote the file {fired[0]} (seam {k} of the call)"
+    key = f"C16|{cls}|race:{op}:"
+    if r[0] == "exc":
+        return [(key + f"raises:{type(r[1]).__name__}", f"{where}: raised {r[1]!r}")], fired[0]
+    r2 = _call(obj.load_if_changed)
+    if r2[0] == "exc":
+        return [(key + f"settle_raises:{type(r2[1]).__name__}", f"{where}: the following load_if_changed() raised {r2[1]!r}")], fired[0]
+    ref = klass.from_string(fc, **kw)
+    got, want = obj.to_string(), ref.to_string()
+    if got != want:
+        return [(key + "stale_after_external_write",
+                 f"{where}: after the call returned and load_if_changed() was polled once more (answer {r2[1]!r}) the object still exports "
+                 f"{core.short(got, 80)} although the file holds {core.short(fc, 80)} -- it would never notice the rewrite")], fired[0]
+    return [], fired[0]
+
+
+def race_cases(seed):
+    return [{"part": "race", "cls": c, "enc": "utf-8", "op": op, "k": k, "seed": seed, "mode": "normal"}
+            for c in ("htpasswd", "htdigest") for op in RACE_OPS for k in range(1, RACE_MAX_SEAMS + 1)]
+
+
+def work_race(task):
+    acc = Acc()
+    for case in task["cases"]:
+        vs, fired = eval_race(case)
+        if fired is None:
+            acc.count("race_seam_index_beyond_the_call")
+            continue
+        acc.ev()
+        acc.cls("race", case["cls"], case["op"], case["k"], fired)
+        acc.axis("race_seam", fired)
+        acc.outcome(("race", case["op"], "viol" if vs else "ok"))
+        for key, desc in vs:
+            acc.violation(key, desc, case)
+    return acc
+
+
+
 def isolation_cases(seed):
     return [{"part": "isolation", "cls": c, "ctor_a": a, "ctor_b": b, "seed": seed, "mode": "normal"}
             for c in ("htpasswd", "htdigest") for a in CTORS for b in CTORS]
@@ -1656,6 +1796,8 @@ def run_task(task):
             return work_isolation(task)
         if part == "empty_hash":
             return work_empty_hash(task)
+        if part == "race":
+            return work_race(task)
         raise HarnessError(f"unknown part {part}")
     finally:
         teardown_env()
@@ -1724,6 +1866,7 @@ def run(ctx):
         ctx.assume("isolation of objects failed; only the isolation cases were evaluated")
         return
     ctx.merge(work({"part": "empty_hash", "cases": empty_hash_cases()}), part="empty_hash")
+    ctx.merge(work({"part": "race", "cases": race_cases(ctx.seed)}), part="race")
     singles, batches = [], {"normal": [], "O": []}
     for mode in ("normal", "O"):
         for cfg in roots(quick, ctx.seed):
@@ -1816,6 +1959,8 @@ def _replay_here(case):
             return eval_isolation(case)
         if part == "empty_hash":
             return eval_empty_hash(case)
+        if part == "race":
+            return eval_race(case)[0]
         raise HarnessError(f"unknown case part {part}")
     finally:
         teardown_env()
